@@ -1122,6 +1122,9 @@ BASE_MODELS = [
         z3.If(a[0].e >= 0, a[0].e, z3.If(a[0].e == ty_range(a[0].ty)[0], z3.IntVal(ty_range(a[0].ty)[1]), -a[0].e))), a[0].ty))])),
     (R(r"^<&?(i|u)(\d+|size) as (Div|Rem)(<.*>)?>::(div|rem)$"), m_int_divrem),
     (R(r"^<(i|u)(\d+|size) as Default>::default$"), m_int_default),
+    (R(r"^<(std::option::)?Option<.*> as Default>::default$"), lambda ex, st, c, a, d: iter([(st, none())])),
+    (R(r"^<bool as Default>::default$"), lambda ex, st, c, a, d: iter([(st, mk_bool(False))])),
+    (R(r"^<(std::string::)?String as Default>::default$"), lambda ex, st, c, a, d: iter([(st, StrV(""))])),
     (R(r"^<(i|u)(\d+|size) as PartialOrd>::partial_cmp$"), m_int_partial_cmp),
     (R(r"^<(i|u)(\d+|size) as Ord>::cmp$"), m_int_cmp),
     (R(r"^<\(.*\) as (Ord>::cmp|PartialOrd>::partial_cmp)$"), m_tuple_cmp),
